@@ -5,6 +5,10 @@ V = os.path.dirname(os.path.dirname(os.path.abspath(__file__)))
 ALL = [f'C{i:02d}' for i in range(1, 29)]
 
 CLAIMED = {
+ 'C21': dict(
+    text="Full-strength theorems about the model of preparation_step::parse_data over real envelope bytes (MessagePack + serde-flatten view) for EVERY byte string and every rkyv decoder: C21_reject_iff (rejected with UnsupportedInterpreterVersion iff both envelopes decode and the current one's version is below the minimum), C21_supported_not_rejected, C21_empty_is_empty_data, C21_lt_release_iff (what 'older' means for triples, pre-release tags and build metadata under the semver crate's order). Tied to the code by differential runs over the version grid x 11 envelope shapes and an oracle using the real semver crate.",
+    note="Lean kernel + propext/Quot.sound; hand-written replicas of semver 1.0.21 parse/order, rmp MessagePack decoding and serde's flatten/serde_bytes view validated only by the correspondence run; the rkyv decoder is a parameter (trusted base); the minimal version string is regenerated from interpreter_versions.rs on every run.",
+    technique="Lean 4 proof (iff characterisation + order lemma) + differential correspondence on version grid", design="§8 C21"),
  'C22': dict(
     text="Full-strength theorems (C22_hard_air/_particle/_call_result, C22_soft_equiv, C22_at_or_below_never_triggers) about the staged-runner model for EVERY instantiation of the stages, every input and every limit configuration; tied to the code by a correspondence run (implementation under the limit grid {size-1,size,size+1,0,max}^3 x {soft,hard} vs the model replaying the unlimited run's stage results) plus a direct oracle of the property on the implementation.",
     note="Lean kernel + propext/Quot.sound; the staged-runner replica (runner.rs/preparation.rs/sizes_limits_check.rs) is hand-written and validated by differential runs; stage internals (decoding, verification, execution) are parameters of the theorem, so the statement holds whatever they do; the translator checks that the limit fields are read only in the preparation step.",
